@@ -3701,8 +3701,10 @@ impl KotoVm {
         let previous_frame_base = self.register_base;
         let new_frame_base = previous_frame_base + frame_base as usize;
 
-        self.call_stack
-            .push(Frame::new(chunk.clone(), non_locals, new_frame_base));
+        let mut frame = Frame::new(chunk.clone(), non_locals, new_frame_base);
+        frame.sequence_builder_count = self.sequence_builders.len();
+        frame.string_builder_count = self.string_builders.len();
+        self.call_stack.push(frame);
         self.register_base = new_frame_base;
         self.set_chunk_and_ip(chunk, ip);
     }
@@ -3717,6 +3719,13 @@ impl KotoVm {
         let Some(popped_frame) = self.call_stack.pop() else {
             return runtime_error!(ErrorKind::EmptyCallStack);
         };
+
+        // Drop any sequences or strings that were still under construction in the popped frame,
+        // e.g. when the frame is exited by an error or by a `return` inside a list literal.
+        self.sequence_builders
+            .truncate(popped_frame.sequence_builder_count);
+        self.string_builders
+            .truncate(popped_frame.string_builder_count);
 
         if self.call_stack.is_empty() {
             // The call stack is empty, so clean up by resetting the register base.
@@ -4089,6 +4098,9 @@ struct Frame {
     //   - an external function is calling back into the VM with a functor
     //   - a module is being imported
     pub execution_barrier: bool,
+    // The number of sequence and string builders that were active when the frame was pushed
+    pub sequence_builder_count: usize,
+    pub string_builder_count: usize,
 }
 
 impl Frame {
@@ -4103,6 +4115,8 @@ impl Frame {
             return_instruction_ip: 0,
             catch_stack: vec![],
             execution_barrier: false,
+            sequence_builder_count: 0,
+            string_builder_count: 0,
         }
     }
 
